@@ -140,7 +140,7 @@ func cmdCheck(args []string) int {
 		}
 	}
 	sort.Strings(roots)
-	if len(roots) == 0 {
+	if len(roots) == 0 && P.verifyStructural(prop) == nil {
 		if items, _ := loadBounded(filepath.Join(*verifDir, "bounded.json")); len(items) == 0 {
 			return fail2("no contract carries this property")
 		}
@@ -233,6 +233,10 @@ func cmdCheck(args []string) int {
 		}(i)
 	}
 	lwg.Wait()
+	if sr := P.verifyStructural(prop); sr != nil {
+		cr.results[sr.Key] = sr
+		cr.order = append(cr.order, sr.Key)
+	}
 	sort.Strings(cr.order)
 	// bounded stand-ins registered for this property (run against the real code through go test -overlay)
 	items, err := loadBounded(filepath.Join(*verifDir, "bounded.json"))
